@@ -58,12 +58,12 @@ Fixpoint build_run (f : flavour) (e : t) (script : list val) : option t :=
   end.
 Definition create (f : flavour) : t := match f with Comcast => CreateComcastEBP | CableLabs => CreateCableLabsEbp end.
 (* build through the API, observe, encode, observe again (Data() rewrites DataFieldLength), decode the bytes *)
-Definition build_obs (f : flavour) (script : list val) : val :=
+Definition build_obs (g : bool) (f : flavour) (script : list val) : val :=
   match build_run f (create f) script with
   | None => vbad
   | Some e =>
     let '(d, e') := Data f e in
-    VL [obs f e; VB d; obs f e'; read_obs false d]
+    VL [obs f e; VB d; obs f e'; read_obs g d]
   end.
 Definition flavour_of (z : Z) : option flavour :=
   if Z.eqb z 0 then Some Comcast else if Z.eqb z 1 then Some CableLabs else None.
@@ -117,7 +117,10 @@ Definition ops : list op := [
   (* the readers with notes/findings/C05-ebp.patch applied (goexec runs the same real function) *)
   ("ebp.readg", fun a => match a with [VB b] => read_obs true b | _ => vbad end);
   ("ebp.build", fun a => match a with
-     | [VI f; VL script] => match flavour_of f with Some f => build_obs f script | None => vbad end
+     | [VI f; VL script] => match flavour_of f with Some f => build_obs false f script | None => vbad end
+     | _ => vbad end);
+  ("ebp.buildg", fun a => match a with
+     | [VI f; VL script] => match flavour_of f with Some f => build_obs true f script | None => vbad end
      | _ => vbad end);
   (* SetEBPTime then EBPTime on a fresh EBP of the flavour: [seconds fraction time] *)
   ("ebp.time", fun a => match a with
